@@ -21,6 +21,26 @@ ASSUMPTIONS = ["global interpreter state (numpy.random) is observed by the harne
                "bit-for-bit equality of full return values is checked on the implementation only"]
 
 
+def scribble(obj):
+    """overwrite every mutable container reachable from a returned result"""
+    try:
+        if isinstance(obj, np.ndarray):
+            if obj.flags.writeable and obj.size:
+                obj[...] = -7 if obj.dtype.kind in "iuf" else obj.flat[0]
+        elif isinstance(obj, dict):
+            for v in obj.values():
+                scribble(v)
+        elif isinstance(obj, list):
+            for v in obj:
+                scribble(v)
+            obj.append("scribbled")
+        elif isinstance(obj, tuple):
+            for v in obj:
+                scribble(v)
+    except Exception:  # noqa
+        pass
+
+
 def same(a, b):
     if isinstance(a, dict) and isinstance(b, dict):
         return a.keys() == b.keys() and all(same(a[k], b[k]) for k in a)
@@ -48,6 +68,14 @@ def run(ctx):
             st0 = gstate()
             r1, _ = call_on(name, p, arrays(), seed if ctx.rng.random() < 0.7 else np.int64(seed))
             touched = gstate() != st0
+            # what came back is copied for the comparisons and then scribbled over, as a client may do with arrays it was handed:
+            # later calls must not be affected (no result object shared with internal state or with later results)
+            r1_live = r1; r1 = copy.deepcopy(r1)
+            call_on(name, p, arrays(), seed + 1)           # another call in between must not change what the first call handed back
+            if not same(r1_live[1] if r1_live[0] == "ok" else None, r1[1] if r1[0] == "ok" else None):
+                det.update({"issue": "the result handed back by one call changed when the function was called again (a result object is shared with internal state)",
+                            "first": str(r1)[:300], "now": str(r1_live)[:300]}); ctx.violation("oracle", det, site=fn.site)
+            scribble(r1_live)
             np.random.seed(ctx.rng.randint(0, 10**6)); np.random.random(ctx.rng.randint(0, 5))
             if ctx.rng.random() < 0.5:     # a different call history in between
                 utils.permute(np.arange(4), 99); guarded(irr.simulate_ts_dist, np.array([[0, 1], [1, 1]]), None, 2, False, 3)
